@@ -190,6 +190,11 @@ def run(chk):
             owner.append(c)
             jobs.append({"prog": c["prog"], "mech": "qualified", "opts": {"qualify": S}, "ds_expect": S})
             owner.append(c)
+        # (iv) the web application's /lineage answer while the scope is open: INSERT programs only (their table graph is
+        # sources -> target, so the export projects onto reads and target)
+        for c in [c for c in cases if c["prog"][0]["a"] == "insert" and c["reads"]][:60 if quick else 600]:
+            jobs.append({"prog": c["prog"], "mech": "served_scoped", "ds": S, "ds_expect": S})
+            owner.append(c)
         obs = stmt_variants.run(jobs)
         # (i) environment variable, set before the library is imported by the worker processes
         jobs_e = [{"prog": c["prog"], "mech": "env", "ds_expect": S} for c in cases]
